@@ -48,7 +48,7 @@ fn expand_brace_expr_member(bem: word::BraceExpressionMember) -> Box<dyn Iterato
                 let increment = increment as i64;
                 Box::new(
                     std::iter::successors(Some(start), move |&n| {
-                        let next = n - increment;
+                        let next = n.checked_sub(increment)?;
                         (next >= end).then_some(next)
                     })
                     .map(|n| n.to_string()),
@@ -70,10 +70,10 @@ fn expand_brace_expr_member(bem: word::BraceExpressionMember) -> Box<dyn Iterato
                 Box::new((start..=end).step_by(increment).map(|c| c.to_string()))
             } else {
                 // Iterate from start down to end by decrementing.
-                let increment = increment as u32;
+                let increment = u32::try_from(increment).unwrap_or(u32::MAX);
                 Box::new(
                     std::iter::successors(Some(start), move |&c| {
-                        let next = char::from_u32(c as u32 - increment)?;
+                        let next = char::from_u32((c as u32).checked_sub(increment)?)?;
                         (next >= end).then_some(next)
                     })
                     .map(|c| c.to_string()),
